@@ -8,6 +8,7 @@ pub mod hist;
 pub mod fmtx;
 pub mod parsers;
 pub mod sched;
+pub mod hsched;
 pub mod rtrnet;
 pub mod clibin;
 pub mod c01;
